@@ -85,6 +85,13 @@ func runC15(t *testing.T, c simrt.Chooser, o Opts) *Out {
 		sp := &socksPlan{salt: uint64(p.n("salt", 1<<30)), mix: []int{sbProxy, sbAuth, sbRefuse, sbCloseAfter, sbSilent}, latMax: p.dur("latmax", time.Microsecond, 50*time.Millisecond), connMax: 5 * time.Millisecond}
 		sc.Stalls = true // probe latencies are "stalls": only the lower bound applies
 		wd.tcp = sp.install
+		cancelled := false
+		if p.pct("cancel", 35) {
+			// Ctrl-C while workers wait for their turn at the limiter: what is started afterwards is
+			// still a probe started and must be paced like any other
+			cancelled = true
+			wd.SigintAt = p.dur("cancelat", 1, time.Duration(s.nprobes())*w/time.Duration(n)+time.Millisecond).String()
+		}
 		sc.App = &c16AppScenario{Spec: s, World: wd}
 		cr := runCmd(t, c, wd, o.Trace)
 		out.Res = &cr.Res
@@ -105,7 +112,9 @@ func runC15(t *testing.T, c simrt.Chooser, o Opts) *Out {
 		if msg := checkSpacing(ts, n, w, false); msg != "" {
 			out.violate("C15.too-fast", "socks", "argv %v: %s", wd.Argv, msg)
 		}
-		if want := s.nprobes(); len(cr.Dials) != want {
+		if cancelled && cr.Res.SigTime > 0 {
+			simrtProbe(&cr.Res, "cancel-while-throttled")
+		} else if want := s.nprobes(); len(cr.Dials) != want {
 			out.violate("C15.probe-count", "socks", "argv %v: %d probes started, %d expected", wd.Argv, len(cr.Dials), want)
 		}
 		return out
